@@ -163,6 +163,31 @@ func VH_C19_MapOrderTTML() {
 	vreach("end")
 }
 
+// C19 H1 for TTML, styles that are not in the style map: two or three regions each refer to a style of their own that
+// only they know (the list's style map holds other styles or none); every map order gives the same document.
+func VH_C19_MapOrderTTMLRegionStyles() {
+	ns := choose(2)
+	nr := vbound("regions", 2, 3)
+	s := vc19ListK(ns, nr, 0)
+	for i := 0; i < nr; i++ {
+		s.Regions["r"+string(rune('0'+i))].Style = &Style{ID: "u" + string(rune('0'+(i*2+1)%3)), InlineStyle: &StyleAttributes{TTMLColor: vstrp("#00ff00")}}
+	}
+	vxmlCaptured = nil
+	vmaporder(true)
+	var b1, b2 bytes.Buffer
+	e1 := s.WriteToTTML(&b1)
+	e2 := s.WriteToTTML(&b2)
+	vmaporder(false)
+	if vnative() {
+		vassert(e1 == nil && e2 == nil, "C19 ttml write succeeds")
+		vassert(bytes.Equal(b1.Bytes(), b2.Bytes()), "C19 map-order: same list, same TTML document value")
+		return
+	}
+	vassert(e1 == nil && e2 == nil && len(vxmlCaptured) == 2, "C19 ttml write succeeds")
+	vassert(vdeepequal(vxmlCaptured[0], vxmlCaptured[1]), "C19 map-order: same list, same TTML document value")
+	vreach("end")
+}
+
 // vc19Clone: deep copy of a cue list (harness code).
 func vc19Clone(s *Subtitles) *Subtitles {
 	c := &Subtitles{}
